@@ -17,6 +17,7 @@ type ingest struct {
 	r *Results
 	// statistics
 	effects int
+	vc7     map[string]*Effect
 }
 
 func isNetMsg(t *Term) bool {
@@ -29,51 +30,64 @@ func isNetMsg(t *Term) bool {
 	return mentionsRoot(t, "rawMessage") || t.ContainsKey("field:futureCache(")
 }
 
+type ingestCfg struct {
+	name   string
+	assume []*Atom
+}
+
+func ingestConfigs() []ingestCfg {
+	m := Var("m")
+	blk := Field(m, "block")
+	proof := Call("protocol.PreparedProof", Call("protocol.SignedHeader", Field(m, "content")))
+	return []ingestCfg{
+		{"", nil},
+		{"vc-proof-and-block", []*Atom{Ne(blk, tNil), Ne(proof, tNil), Lt(Const("0"), Len(raw(proof)))}},
+		{"vc7-block-without-proof-1", []*Atom{Ne(blk, tNil), Eq(proof, tNil)}},
+		{"vc7-block-without-proof-2", []*Atom{Ne(blk, tNil), Ne(proof, tNil), Le(Len(raw(proof)), Const("0"))}},
+		{"vc7-proof-without-block", []*Atom{Eq(blk, tNil), Ne(proof, tNil), Lt(Const("0"), Len(raw(proof)))}},
+		{"nv-proven-hash-nonnil", []*Atom{Ne(Call("protocol.BlockHash", Call("protocol.PreprepareBlockRef", Call("protocol.PreparedProof", Call("protocol.SignedHeader", Var("vote"))))), tNil)}},
+	}
+}
+
 func runIngest(a *Analyzer, r *Results) {
 	k := a.Anchors()
-	ig := &ingest{a: a, k: k, r: r}
-	type cfg struct {
-		name   string
-		assume func(m *Term) []*Atom
-	}
-	entries := []struct {
-		id    string
-		roots map[string]*Term
-	}{
-		{idE1, nil},
-		{idE2, nil},
-	}
-	for _, en := range entries {
-		fn := a.P.Func(en.id)
-		var m *Term
-		if en.id == idE1 {
-			m = Call("interfaces.ToConsensusMessage", Root("rawMessage"))
-		}
-		cfgs := []cfg{{"", nil}}
-		if m != nil {
-			H := hdr(m)
-			cfgs = append(cfgs,
-				cfg{"vc-proof-and-block", func(m *Term) []*Atom {
-					return []*Atom{Ne(blockOf(m), tNil), Ne(proofOf(H), tNil), Lt(Const("0"), Len(raw(proofOf(H))))}
-				}},
-				cfg{"nv-proven-hash-nonnil", func(m *Term) []*Atom {
-					return []*Atom{Ne(Call("protocol.BlockHash", Call("protocol.PreprepareBlockRef", Call("protocol.PreparedProof", Call("protocol.SignedHeader", Var("vote"))))), tNil)}
-				}},
-			)
-		}
-		for _, c := range cfgs {
+	ig := &ingest{a: a, k: k, r: r, vc7: map[string]*Effect{}}
+	for _, id := range []string{idE1, idE2} {
+		fn := a.P.Func(id)
+		for _, c := range ingestConfigs() {
 			w := a.NewWalker(func(e *Effect) { ig.onEffect(e) })
 			w.AutoSplit = true
 			w.Config = c.name
-			if c.assume != nil {
-				w.Assume = c.assume(m)
-			}
-			w.Run(fn, en.roots, nil)
+			w.Assume = c.assume
+			w.Run(fn, nil, nil)
 			for _, u := range w.Undecided {
-				r.Undecided = append(r.Undecided, en.id+": "+u)
+				r.Undecided = append(r.Undecided, id+": "+u)
 			}
 			r.Stats["ingest.paths"] += w.Paths
-			r.Stats["ingest.functions"] += len(w.Visited)
+			if len(w.Visited) > r.Stats["ingest.functions"] {
+				r.Stats["ingest.functions"] = len(w.Visited)
+			}
+		}
+		// VC7: under each xor-assumption the vote store must be unreachable
+		short := id[strings.LastIndex(id, ".")+1:]
+		for _, c := range ingestConfigs() {
+			if !strings.HasPrefix(c.name, "vc7-") {
+				continue
+			}
+			e := ig.vc7[id+"|"+c.name]
+			o := &Obl{Rule: "VC7", Key: "VC7|" + short + "|interfaces.StoreViewChange|net", Props: props("C09", "C11", "C05"), Engine: "A",
+				Text: "a vote is stored only if it carries a block exactly when it carries a non-empty prepared proof (case split " + c.name + ": the store must be unreachable)", Entry: id}
+			if e == nil {
+				o.Status = "discharged"
+				o.Site = a.P.Pos(fn.Pos())
+				o.Guards = []string{"case split " + c.name + " prunes every path to the store"}
+			} else {
+				o.Status = "violated"
+				o.Site = e.Pos(a)
+				o.Path = e.PathString()
+				o.Missing = "StoreViewChange is reachable under the assumption " + c.name
+			}
+			r.Add(o)
 		}
 	}
 	r.Stats["ingest.effects"] = ig.effects
@@ -121,6 +135,9 @@ func (ig *ingest) onEffect(e *Effect) {
 				}
 			}
 		}
+		if strings.HasPrefix(e.Config, "vc7-") && storeKind[e.Name] == "VC" && isNetMsg(m) {
+			ig.vc7[e.Entry+"|"+e.Config] = e
+		}
 		if e.Config == "vc-proof-and-block" && storeKind[e.Name] == "VC" && isNetMsg(m) {
 			ev := a.NewEval(e, ig.r)
 			H := hdr(m)
@@ -128,12 +145,13 @@ func (ig *ingest) onEffect(e *Effect) {
 				Truth(Call("interfaces.ValidateBlockCommitment", k.BU, ht(H), blockOf(m), hash(Call("protocol.PreprepareBlockRef", proofOf(H))))))
 		}
 	case e.Kind == "store" && e.Name == "termincommittee.TermInCommittee.latestViewThatProcessedVCMOrNVM":
-		if e.Config == "" && len(e.Args) == 1 && mentionsRoot(e.Args[0], "rawMessage") && e.Entry == idE1 {
+		if e.Config == "" && len(e.Args) == 1 && isNetMsg(e.Args[0]) {
 			// NEW_VIEW acceptance or election; told apart by the message type on the path
 			ev := a.NewEval(e, ig.r)
-			m := Call("interfaces.ToConsensusMessage", Root("rawMessage"))
-			if ev.Has(Truth(T("istype", "interfaces.NewViewMessage", m))) != nil {
-				ig.ingNV(e, ev, m)
+			for _, b := range ev.Find(Truth(T("istype", "interfaces.NewViewMessage", Var("m")))) {
+				if isNetMsg(b["m"]) {
+					ig.ingNV(e, ev, b["m"])
+				}
 			}
 		}
 	}
@@ -336,7 +354,12 @@ func (ig *ingest) ingPPLocked(e *Effect, ev *Eval, m, H *Term) {
 	if vote == nil {
 		return
 	}
-	nvH := hdr(Call("interfaces.ToConsensusMessage", Root("rawMessage")))
+	blk := Field(m, "block")
+	if blk.Op != "field" || len(blk.Args) != 1 {
+		ev.Verdict("PP7.commitment", props("C03", "C04", "C07", safety), "a locked re-proposal's block satisfies the proven hash", "embedded", false, "cannot identify the enclosing NEW_VIEW of "+PP(m))
+		return
+	}
+	nvH := hdr(blk.Args[0])
 	ph := hash(Call("protocol.PreprepareBlockRef", Call("protocol.PreparedProof", Call("protocol.SignedHeader", vote))))
 	ev.Require("PP7.commitment", props("C03", "C04", "C07", safety), "a locked re-proposal's block satisfies the proven hash", "embedded",
 		Truth(Call("interfaces.ValidateBlockCommitment", k.BU, ht(nvH), blockOf(m), ph)))
@@ -433,8 +456,6 @@ func (ig *ingest) ingVC(e *Effect, m *Term) {
 	ev.Require("VC4", props("C08", safety), "a VIEW_CHANGE is stored only if its sender is a committee member", "net", k.Member(mid(S)))
 	ev.Require("VC5", props("C08", safety), "a VIEW_CHANGE's signed header is typed VIEW_CHANGE", "net", Eq(mtype(H), k.ProtoConst("LEAN_HELIX_VIEW_CHANGE")))
 	ig.requireProofValid(ev, "VC6", props("C08", "C09", safety), "net", k.SHeight, vw(H), proofOf(H))
-	// pairing: proof non-empty <=> block present
-	ig.pairing(ev, m, H)
 	ig.exactStaleness(ev, "L7.VC", H, []string{Le(k.SView, vw(H)).Key()})
 }
 
@@ -495,28 +516,6 @@ func (ig *ingest) isLeaderClosure(t *Term) bool {
 	return got.Key() == ig.k.LeaderOf(v).Key()
 }
 
-func (ig *ingest) pairing(ev *Eval, m, H *Term) {
-	// VC7: (len(proof.Raw()) > 0) <=> (block != nil): decided by a case split evaluated on the facts:
-	// the store must be unreachable with exactly one of the two. We look for a fact establishing the equivalence:
-	// eq(bool-term-of-proof-nonempty, bool-term-of-block-present).
-	pr := proofOf(H)
-	has := false
-	var site string
-	for _, key := range ev.facts.SortedKeys() {
-		f := ev.facts[key]
-		if f.Pred != "eq" || f.Neg {
-			continue
-		}
-		ks := f.Args[0].Key() + " " + f.Args[1].Key()
-		if strings.Contains(ks, blockOf(m).Key()) && strings.Contains(ks, raw(pr).Key()) {
-			has = true
-			site = f.Site
-		}
-	}
-	ev.Verdict("VC7", props("C09", "C11", "C05"), "a vote is stored only if it carries a block exactly when it carries a non-empty prepared proof", "net", has,
-		"no equivalence between (proof non-empty) and (block present) on the store path", site)
-}
-
 // ---------------------------------------------------------------- ING-NV
 
 func (ig *ingest) ingNV(e *Effect, ev *Eval, m *Term) {
@@ -550,4 +549,74 @@ func (ig *ingest) ingNV(e *Effect, ev *Eval, m *Term) {
 	ev.Require("NV12.view", props("C07", "C08"), "the embedded proposal is for the NEW_VIEW's view", "net", Eq(vw(PH), vw(H)))
 	ev.Require("NV12.height", props("C07", "C08"), "the embedded proposal is for the NEW_VIEW's height", "net", Eq(ht(PH), ht(H)))
 	ev.Require("NV12.instance", props("C07", "C08"), "the embedded proposal belongs to the NEW_VIEW's instance", "net", Eq(inst(PH), inst(H)))
+}
+
+// ---------------------------------------------------------------- PROOF: Succ(ValidatePreparedProof) for a non-empty proof
+
+const idProof = "services/proofsvalidator.ValidatePreparedProof"
+
+func runProof(a *Analyzer, r *Results) {
+	fn := a.P.Func(idProof)
+	if len(fn.Params) != 6 {
+		broken("unresolved anchor: ValidatePreparedProof no longer has 6 parameters")
+	}
+	roots := map[string]*Term{}
+	names := []string{"targetHeight", "targetView", "proof", "km", "committee", "leaderOf"}
+	for i, p := range fn.Params {
+		roots[p.Name()] = Root(names[i])
+	}
+	th, tv, proof, cmt := Root("targetHeight"), Root("targetView"), Root("proof"), Root("committee")
+	km := This("interfaces.KeyManager")
+	leader := func(v *Term) *Term { return T("calldyn", "", Root("leaderOf"), v) }
+	ppRef := Call("protocol.PreprepareBlockRef", proof)
+	pRef := Call("protocol.PrepareBlockRef", proof)
+	ppSender := Call("protocol.PreprepareSender", proof)
+	senders := Call("protocol.PrepareSendersIterator", proof)
+	verify := func(ref, s *Term) *Atom {
+		return ErrNil(Call("interfaces.VerifyConsensusMessage", km, ht(ref), raw(ref), s))
+	}
+	pr := props("C08", "C11", "C01", "C07")
+	nTrue := 0
+	w := a.NewWalker(func(e *Effect) {
+		if e.Kind != "return" || len(e.Args) != 1 {
+			return
+		}
+		ev := a.NewEval(e, r)
+		if e.Args[0].Key() == tFalse.Key() {
+			return
+		}
+		nTrue++
+		if e.Args[0].Key() != tTrue.Key() {
+			ev.Verdict("PR0", pr, "ValidatePreparedProof returns only the constants true/false (so that every acceptance is a decided path)", "nonempty", false, "returns "+PP(e.Args[0]))
+			return
+		}
+		ev.Require("PR1", pr, "all four parts of the proof are present", "nonempty", Ne(ppSender, tNil), Ne(ppRef, tNil), Ne(pRef, tNil))
+		ev.Require("PR2", pr, "the proof is for the target height", "nonempty", Eq(ht(ppRef), th))
+		ev.Require("PR3", pr, "the proof's view is below the target view", "nonempty", Lt(vw(ppRef), tv))
+		ev.Require("PR4", pr, "prepare senders plus the proposer reach quorum weight in the given committee", "nonempty",
+			Truth(Ext(0, Call("quorum.IsQuorum", T("append", "", T("map", "", senders, mid(bound)), mid(ppSender)), cmt))))
+		ev.Require("PR5", pr, "the proposer's signature over the PREPREPARE reference verifies", "nonempty", verify(ppRef, ppSender))
+		ev.Require("PR6", pr, "the proposer is the leader of the proof's view", "nonempty", Eq(mid(ppSender), leader(vw(ppRef))))
+		ev.Require("PR7", pr, "both references name the same block hash", "nonempty", Eq(hash(pRef), hash(ppRef)))
+		ev.Require("PR8", pr, "both references name the same height", "nonempty", Eq(ht(pRef), ht(ppRef)))
+		ev.Require("PR9", pr, "both references name the same view", "nonempty", Eq(vw(pRef), vw(ppRef)))
+		ev.Require("PR10", pr, "every prepare sender's signature over the PREPARE reference verifies", "nonempty", ForAll(senders, verify(pRef, bound)))
+		ev.Require("PR11", pr, "no prepare sender is the proposer", "nonempty", ForAll(senders, Ne(mid(bound), mid(ppSender))))
+		ev.Require("PR12", pr, "every prepare sender is a member of the given committee", "nonempty", ForAll(senders, Truth(Call("proofsvalidator.IsInMembers", cmt, mid(bound)))))
+		ev.Require("PR13", pr, "prepare senders are pairwise distinct", "nonempty", Unique(senders, mid(bound)))
+		k := a.Anchors()
+		ev.Require("PR14", props("C08", "C01"), "the references are typed PREPREPARE and PREPARE", "nonempty",
+			Eq(mtype(ppRef), k.ProtoConst("LEAN_HELIX_PREPREPARE")), Eq(mtype(pRef), k.ProtoConst("LEAN_HELIX_PREPARE")))
+		ev.Require("PR15", props("C08"), "both references belong to the same instance", "nonempty", Eq(inst(ppRef), inst(pRef)))
+	})
+	w.AutoSplit = true
+	w.Config = "proof-nonempty"
+	w.Assume = []*Atom{Ne(proof, tNil), Lt(Const("0"), Len(raw(proof)))}
+	w.Run(fn, roots, nil)
+	for _, u := range w.Undecided {
+		r.Undecided = append(r.Undecided, idProof+": "+u)
+	}
+	if nTrue == 0 {
+		r.Undecided = append(r.Undecided, "ValidatePreparedProof has no accepting return for a non-empty proof")
+	}
 }
